@@ -20,7 +20,8 @@ func init() {
 			"R2 precedence and determinism of EntryForRegistry: the helper name is the per-host helper when one is configured and the default store otherwise; the auths table is consulted only on paths where no helper is configured, or the helper failed, is the default one (not per-host) and the failure is ErrHelperNotFound; credentials read from the table are returned only under len(derivedFrom) <= 1; and the lookup writes nothing to the ConfigFile (no stores, no Store/Delete calls on its fields), so results cannot depend on the order of lookups. " +
 			"R3 the byte count of base64 Decode into a caller-sized buffer is used. " +
 			"R4 the auth field is decoded with base64.StdEncoding. " +
-			"R5 decodeAuth never returns one element of an unlimited split on ':' (the password is everything after the first colon).",
+			"R5 decodeAuth never returns one element of an unlimited split on ':' (the password is everything after the first colon). " +
+			"R6 URL-form keys of the auths table keep their port (the key normalisation never calls URL.Hostname / net.SplitHostPort).",
 		NotDecided: "exactness of base64 decoding of the auth field, and the text of the error when several entries are malformed (it can depend on iteration order; outside the property's statement), are not decided.",
 		Technique:  "static analysis: must-pass-through on the loop body, dominance, disjunctive path facts, write-effect scan",
 	})
@@ -30,6 +31,7 @@ func runC19(c *core.Ctx) {
 	base64CountUsed(c, "C19.R3")
 	authDecodedWithStdAlphabet(c, "C19.R4")
 	passwordIsEverythingAfterTheFirstColon(c, "C19.R5")
+	authKeysKeepThePort(c, "C19.R6")
 	dec := c.P.Func("ociauth", "decodeConfigFile")
 	if dec == nil {
 		c.Fail("C19.R1", "anchor/ociauth.decodeConfigFile", 0, "ociauth.decodeConfigFile not found")
